@@ -71,12 +71,29 @@ fn gen(tier: &str, rng: &mut Sm) -> Gen {
                     rng.pick(&[tl![A(27)], tl![A(28)], tl![A(29)], tl![A(30)]]).clone()
                 } else if rng.chance(1, 2) {
                     tl![A(6), au(pos)]
+                } else if rng.chance(1, 8) {
+                    tl![A(9), rng.pick(&[tl![A(28)], tl![A(30)], tl![A(27)], tl![A(100), tl![A(29)]], tl![A(6), A(7)]]).clone()]
                 } else {
                     rng.pick(&plain).clone()
                 }
             })
             .collect();
         g.inputs.push(tl![A(1), L(genes)]);
+    }
+    // exec literals: a program carried as DATA opens no block, whatever it is
+    let payloads = [tl![A(28)], tl![A(30)], tl![A(27)], tl![A(29)], tl![A(26)], tl![A(9), tl![A(28)]], tl![A(100), tl![A(28)]], tl![A(100)], tl![A(100), tl![A(30)], tl![A(6), A(1)]]];
+    for p in payloads.iter() {
+        let lit = tl![A(9), p.clone()];
+        let x = |k: i128| tl![A(6), A(k)];
+        for genes in [
+            vec![lit.clone()],
+            vec![lit.clone(), x(1), A(-1), x(2)],
+            vec![lit.clone(), A(-1), x(1)],
+            vec![tl![A(28)], lit.clone(), x(1), A(-1), x(2), A(-1), x(3)],
+            vec![tl![A(30)], lit.clone(), A(-1), lit.clone(), x(1)],
+        ] {
+            g.inputs.push(tl![A(3), L(genes)]);
+        }
     }
     // adversarial shapes
     for n in [1usize, 10, 300] {
@@ -86,6 +103,6 @@ fn gen(tier: &str, rng: &mut Sm) -> Gen {
         g.inputs.push(tl![A(3), L((0..n).map(|i| if i % 3 == 0 { tl![A(30)] } else { A(-1) }).collect())]);
     }
     g.inputs.push(tl![A(3), L(vec![tl![A(28)]; 1000])]);
-    g.meta("generator", "num_opens probe per instruction + exhaustive small genomes + random genomes (len<=400) + adversarial shapes (all closes, all openers to depth 1000, alternating)");
+    g.meta("generator", "num_opens probe per instruction + exhaustive small genomes + random genomes (len<=400) + adversarial shapes (all closes, all openers to depth 1000, alternating) + exec literals carrying block-opening instructions / blocks");
     g
 }
